@@ -40,12 +40,14 @@ Proof.
 Qed.
 
 (** (a) The link, for any threshold.  From a manager with the invariant,
-    exact counters, an empty oracle tape and held [roots], the prefix
+    exact counters, no bound on the number of nodes ([max_nodes = None]: with
+    a bound the swaps of [reorder] may raise [RuntimeError]), an empty oracle
+    tape and held [roots], the prefix
     [collect_garbage() ; reorder(bdd, order)] of [bdd_to_mdd] succeeds and
     reaches a state that satisfies the hypotheses of the conversion proper,
     with the threshold of the start. *)
 Theorem C15c_prefix_link_dyn dvars s L :
-  Inv s → Counts s L → tape s = [] →
+  Inv s → Counts s L → max_nodes s = None → tape s = [] →
   (∀ u, u ∈ roots s → held L u) → dvars_wf dvars s →
   ∃ s1 s2, collect_garbage None s = (Ok tt, s1) ∧
     reorder_pub (Some (list_to_map (b2m_b2s dvars))) s1 = (Ok tt, s2) ∧
@@ -87,7 +89,8 @@ Theorem C15c_tail_total_dyn dvars s L order :
 Proof. exact (bdd_to_mdd_tail_total_dyn dvars s L order). Qed.
 
 (** The full theorem, for any threshold.  [bdd_to_mdd(bdd, dvars)] on a
-    manager with the invariant, exact counters [L], an empty oracle tape,
+    manager with the invariant, exact counters [L], no bound on the number
+    of nodes, an empty oracle tape,
     held roots, the terminal held, and a well-formed [dvars] — dynamic
     reordering enabled or not:
     - the collection and the (public, guarded) reordering succeed; the BDD
@@ -102,7 +105,7 @@ Proof. exact (bdd_to_mdd_tail_total_dyn dvars s L order). Qed.
       [MD mdd x I = denv s u (bitval dvars I)]: the value of the ORIGINAL BDD
       node on the bit assignment given by the binary digits, by bit name. *)
 Theorem C15c_bdd_to_mdd_correct_dyn dvars order s L r s' :
-  Inv s → Counts s L → tape s = [] →
+  Inv s → Counts s L → max_nodes s = None → tape s = [] →
   (∀ u, u ∈ roots s → held L u) → 0 < L 1%positive → dvars_wf dvars s →
   bdd_to_mdd dvars order s = (r, s') →
   ∃ s1 s2, collect_garbage None s = (Ok tt, s1) ∧
@@ -138,7 +141,8 @@ Definition C15c_dvars : list (nat * (nat * list nat)) := [(10, (0, [2; 0])); (11
 
 Definition C15c_check (enable : op) (threshold : option nat) : Prop :=
   let s := world2_get (C15c_bdd enable) 0 in
-  last_len s = threshold ∧ tape s = [] ∧ roots s = [] ∧ dvars_wf_b C15c_dvars s = true ∧
+  last_len s = threshold ∧ max_nodes s = None ∧ tape s = [] ∧ roots s = [] ∧
+  dvars_wf_b C15c_dvars s = true ∧
   match bdd_to_mdd C15c_dvars [2%positive; 6%positive] s with
   | (Ok (mdd, umap), s') =>
       last_len s' = threshold ∧
